@@ -8,7 +8,7 @@ I = Interp(reg, 'T')
 t=time.time()
 c=reg[sys.argv[1]]
 obs = I.verify(c)
-for ob in obs: ob.lemmas = run.lemmas_for(c, ob.name); ob.unfold = c.get('unfold', [])
+for ob in obs: ob.lemmas = run.lemmas_for(c, ob.name); ob.unfold = run.unfold_for(c, ob.name)
 obs += run.lemma_obligations('T', set(c.get('lemmas', [])) | {l for v in (c.get('lemma_map') or {}).values() for l in v})
 print(len(obs), 'obligations', time.time()-t)
 res = solve.discharge(obs, timeout_s=float(sys.argv[2]) if len(sys.argv)>2 else 10)
